@@ -14,11 +14,14 @@ SecAt(kinds, i) == IF i = 0 THEN "none" ELSE kinds[i]
 Enabled(kinds, wrapped, op) ==
     CASE op.op \in {"blank", "comment"} -> op.at \in 0..Len(kinds) /\ SecAt(kinds, op.at) # "O"
       [] op.op = "rewrap"               -> wrapped
-      [] op.op \in {"pad", "crlf", "cr2lf", "nofinalnl", "respell", "delimpad"} -> TRUE
+      [] op.op \in {"pad", "crlf", "cr2lf", "nofinalnl", "respell", "delimpad", "delimpad-text"} -> TRUE
       [] OTHER -> FALSE
+\* recorded finding D34: padding blanks around a TEXT value under a declared COMMA or TAB delimiter are kept as part of the value
+KnownD34 == \E j \in DOMAIN Ev.ops : Ev.ops[j].op = "delimpad-text"
 TPair == /\ Ev.op = "pair" /\ done' = TRUE
          /\ Chk("Harness.OpsEnabled", \A j \in DOMAIN Ev.ops : Enabled(Ev.kinds, Ev.wrapped, Ev.ops[j]))
-         /\ Chk("C09.SameResult", Ev.d0 = Ev.d1)
+         /\ Chk("C09.SameResult", Ev.d0 = Ev.d1 \/ KnownD34)
+         /\ Chk("C09.SameResult.known-D34", ~KnownD34 \/ Ev.d0 = Ev.d1)
          /\ Chk("C09.BothReadable", Ev.d0 # "EXC" /\ Ev.d1 # "EXC")
 TNext == HasNext /\ Advance /\ TPair
 TSpec == TInit /\ [][TNext]_<<tid, l, done>>
